@@ -210,7 +210,17 @@ fn ltk_case(out: &mut Out, seed: &[u8]) {
                 let rig = Rig::new(cfg, 0);
                 pubs.push(rig.server.get_public_key().to_string());
             }
-            format!("pk={} srv={} cert13={} cert0={} cert13b={} pubs={} display={}", hex(&pk), hex(&srv), hex(&c13), hex(&c0), hex(&c13b), pubs.join(","), format!("{}", ltk))
+            // C20: whatever Display / Debug of the key-holding objects print (an embedding program or a log
+            // statement may format them) must not contain the seed or the scalar; the signer is formatted with
+            // an empty and with a pending buffer
+            let mut signer = roughenough::sign::MsgSigner::from_seed(&seed_v);
+            let mut formatted = format!("{} {:?} ", signer, signer);
+            signer.update(b"pending bytes");
+            formatted.push_str(&format!("{} {:?} {} {} {}", signer, signer, ltk, onl13, onl0));
+            let degenerate = seed_v.iter().all(|b| *b == seed_v[0]);
+            let fmtleak = if degenerate { None } else { crate::wire::leak_scan(&crate::wire::secret_patterns(&seed_v), formatted.as_bytes()) };
+            format!("pk={} srv={} cert13={} cert0={} cert13b={} pubs={} display={} fmtleak={}", hex(&pk), hex(&srv), hex(&c13), hex(&c0), hex(&c13b), pubs.join(","), format!("{}", ltk),
+                fmtleak.map(|x| x.replace(' ', "_")).unwrap_or_else(|| "none".to_string()))
         });
         r.unwrap_or_else(|| "panic".to_string())
     });
